@@ -403,4 +403,42 @@ PROPS["C11"] = {
     "level_note": "Trusted: Lean kernel, the httphead/bufio models, net/http inside the wrappers, harness.",
 }
 
+PROPS["C12"] = {
+    "lean": ["WsVerif.Props.C12", "WsVerif.Bridge.C12"],
+    "rule": "(fw) wsflate.Writer around a SCRIPTED compressor that forwards each Write in chosen pieces and ends Flush/Close with chosen "
+            "bytes: 8 data sizes (0..40) x 10 ways to cut them around the 4-byte boundary, 10 flush tails (none, 1-5 bytes, wrong, shifted), "
+            "Close with and without an io.Closer, Reset, destination failing at write 0..3, random scripts (150 quick / 5000 thorough); "
+            "(sr) wsflate.Reader around a pass-through decompressor, sources of 0/1/5/30 bytes x chunk sizes x ByteReader or plain x 6 "
+            "read-size patterns (1 byte at a time ... larger than everything, zero-length reads), EOF/err/data-with-EOF endings; (fl) real "
+            "compress/flate at levels -2,-1,0,1,5,9 through wsflate.Writer for empty, 1-byte, tiny, highly compressible, text, random 300 B "
+            "and 5 kB, and > 32 KiB payloads (100 kB in thorough) x write/flush/close scripts (single write, split writes, flush in the "
+            "middle, double flush, close without flush, flush then close), read back through wsflate.Reader at several chunkings and with "
+            "ByteReader/plain sources; (ind) an independent encoder written in the harness (stored blocks of 65535 and 7 bytes, fixed "
+            "Huffman literals, fixed Huffman with distance-1 matches; sync-flushed, tail removed) through wsflate.Reader; (cf) "
+            "CompressFrame -> DecompressFrame for final/non-final, rsv 0/1/2/4, text/binary, masked; (badc) Helper.Compress with "
+            "compressors that end Flush with nothing / a wrong tail / a short tail / the right tail.",
+    "exhaustive_families": [],
+    "trusted_base": [
+        "Spec/Inflate.lean: a raw-DEFLATE decoder written from RFC 1951 (stored, fixed and dynamic Huffman); it is the independent decoder "
+        "of the statement and, composed with the proved suffixedReader model, the contract assumed of flate.NewReader; unverified, "
+        "validated by agreeing with compress/flate on every case",
+        "compress/flate (Go stdlib) is OUTSIDE: the model takes the compressor as the sequence of chunks it writes, the decompressor as "
+        "a function of the bytes it is given",
+        "Model/Flate.lean mirrors cbuf.go, writer.go and reader.go by hand; tied by exact correspondence through the scripted compressor "
+        "and the pass-through decompressor (every destination byte, number of destination writes, every error) and by Bridge.C12",
+        "the harness's independent encoder (c12.go: encStored, encFixed) - checked by the Lean inflate before it is used as a witness",
+    ],
+    "assumptions": COMMON_ASSUME + ["the destination of the scripted runs fails only where the script says",
+                                    "the decompression reader is judged on complete messages (cut compressed input is C16's)"],
+    "level_text": "Kernel-checked for EVERY sequence of compressor writes and EVERY pattern of reads: cbuf passes everything but the last "
+                  "min(4,total) bytes to the destination unchanged and in order; after a Flush/Close that reports success, destination ++ "
+                  "00 00 ff ff = everything the compressor produced since the last Reset, so appending the RFC 7692 tail restores the "
+                  "compressor's stream; a compressor whose output does not end in 00 00 ff ff makes Flush/Close fail; writer errors are "
+                  "sticky; the suffixed reader delivers source ++ 00 00 ff ff 01 00 00 ff ff once and in order whatever the read sizes, "
+                  "for ByteReader and plain sources alike. That DEFLATE itself round-trips (the stdlib's part) is decided per case by the "
+                  "independent decoder and encoder, not proved (PARTIAL): library output + tail inflates to the message with the Lean "
+                  "decoder; the reader recovers the message from the library's and from the independent encoder's output.",
+    "level_note": "Trusted: Lean kernel, Spec/Inflate.lean, compress/flate as a black box, harness.",
+}
+
 NOT_APPLICABLE = {}
